@@ -51,6 +51,13 @@ def chk_1d(c):
         # default quadrature is exact only up to degree 2p: weight of degree 2 needs one more node -> compare with nqp = p+2
         Mw2 = assemble.bsp_mixed_deriv_biform_1d(K, 0, 0, nqp=p + 2, weightfunc=lambda x: 1 + 2 * x - x * x).toarray()
         _close(Mw2, oracle.biform_1d(c['kv'], p, c['kv'], p, 0, 0, weight=[oracle.fr(v) for v in w]), 'weighted mass (nqp=p+2)')
+        # history independence: a weighted assembly must not influence later calls
+        Mw3 = assemble.bsp_mixed_deriv_biform_1d(K, 0, 0, nqp=p + 2, weightfunc=lambda x: 1 + 2 * x - x * x).toarray()
+        assert np.array_equal(Mw2, Mw3), 'repeating a weighted assembly gives a different matrix'
+    M_again = assemble.bsp_mass_1d(K).toarray()
+    assert np.array_equal(M, M_again), 'mass matrix changed after a weighted assembly on the same knot vector'
+    Mq = assemble.bsp_mixed_deriv_biform_1d(K, 0, 0, nqp=p + 2).toarray()
+    _close(Mq, oracle.biform_1d(c['kv'], p, c['kv'], p, 0, 0), 'mass with custom nqp after a weighted assembly')
 
 
 def chk_asym(c):
